@@ -200,7 +200,10 @@ func runSST(args []string) error {
 	}
 
 	for ci, c := range in.Cases {
-		dir := filepath.Join(in.Dir, fmt.Sprintf("t%d", ci))
+		// tables are written to the same two directories over and over (each removed after its case): whatever a reader or an index loader remembers
+		// about a path must not outlive the table that was there
+		dir := filepath.Join(in.Dir, fmt.Sprintf("t%d", ci%2))
+		os.RemoveAll(dir)
 		if err := os.MkdirAll(dir, 0o700); err != nil {
 			return err
 		}
@@ -387,14 +390,26 @@ func runSST(args []string) error {
 				"meta": M{"n": int(md.NumRecords), "nulls": int(md.NullValues), "min": minr, "max": maxr,
 					"sizesOk": int(md.DataBytes) == fsize(sstables.DataFileName) && int(md.IndexBytes) == fsize(sstables.IndexFileName) &&
 						md.TotalBytes == md.DataBytes+md.IndexBytes}})
+			// every lookup key is handed over in ONE buffer that the caller refills for the next call (a reader may keep nothing of it)
+			var probeBuf []byte
+			inBuf := func(k []byte) []byte {
+				if k == nil {
+					return nil
+				}
+				for i := range probeBuf {
+					probeBuf[i] = 0xEE
+				}
+				probeBuf = append(probeBuf[:0], k...)
+				return probeBuf[:len(k):len(k)]
+			}
 			for _, p := range c.Probes {
-				ok, err := rd.Contains(keyOf(p))
+				ok, err := rd.Contains(inBuf(keyOf(p)))
 				if err != nil {
 					tr.emit(M{"t": "contains", "k": p, "r": "err:" + err.Error()})
 				} else {
 					tr.emit(M{"t": "contains", "k": p, "r": fmt.Sprint(ok)})
 				}
-				v, err := rd.Get(keyOf(p))
+				v, err := rd.Get(inBuf(keyOf(p)))
 				switch {
 				case errors.Is(err, sstables.NotFound):
 					tr.emit(M{"t": "get", "k": p, "r": "NotFound"})
@@ -404,7 +419,7 @@ func runSST(args []string) error {
 					tr.emit(M{"t": "get", "k": p, "r": vt(v)})
 					pokeReturned(v)
 				}
-				it, err2 := rd.ScanStartingAt(keys[p])
+				it, err2 := rd.ScanStartingAt(inBuf(keys[p]))
 				emitScan(M{"t": "scanfrom", "k": p}, it, err2)
 			}
 			{
